@@ -98,7 +98,7 @@ class C20(Prop):
                    'a dump that the database rejects (primary-key conflict on append) is predicted by the model: the table is unchanged and the run raises']
     REAL_VS_STUB = {'real': ['dataflows dump_to_sql, tableschema-sql, SQLAlchemy, sqlite'], 'stub': ['none: the database file in the scratch directory is the durable state; each dump is a fresh process']}
     PROBES = ['mode-rewrite', 'mode-append', 'mode-update', 'update-first-dump-creates-table', 'update-keys-from-primary-key', 'update-keys-explicit', 'update-keys-configured-but-not-update-mode',
-              'repeated-key-in-stream', 'append-pk-conflict-predicted', 'array-object-columns', 'batch-1', 'bloom-off', 'updated-column']
+              'repeated-key-in-stream', 'append-pk-conflict-predicted', 'array-object-columns', 'batch-1', 'bloom-off', 'updated-column', 'rewrite-changes-primary-key']
     TIERS = {'quick': dict(runs=500, wall=100, run_wall=120),
              'thorough': dict(runs=12000, wall=1700, run_wall=300)}
     SHRINK_FROZEN = ('fields',)
@@ -137,6 +137,17 @@ class C20(Prop):
                 op['update_keys'] = rng.choice([['k'], ['k', 'k2']])      # documented as "only applicable for the update mode": must be ignored
             if rng.random() < 0.5:
                 op['updated_column'] = 'upd'
+            if mode == 'rewrite' and rng.random() < 0.4:
+                # the rewritten table is created from *this* dump's schema: another primary key (or none) than before
+                op['pk'] = rng.choice([None, ['k'], ['k', 'k2']])
+                if op['pk']:
+                    seen, uniq = set(), []
+                    for r in rows:
+                        key = tuple(r[:len(op['pk'])])
+                        if key not in seen:
+                            seen.add(key)
+                            uniq.append(r)
+                    op['rows'] = uniq
             ops.append(op)
         return {'fields': fields, 'pk': pk, 'ops': ops}
 
@@ -170,7 +181,11 @@ class C20(Prop):
         if any(t in ('array', 'object') for t in types.values()):
             ctx.probe('array-object-columns')
         nontrivial = False
+        base_pk = pk
         for oi, op in enumerate(sc['ops']):
+            pk = op['pk'] if 'pk' in op else base_pk
+            if 'pk' in op:
+                ctx.probe('rewrite-changes-primary-key')
             rows = [dict(zip(names, [norm(T.dec(c), types[n]) for n, c in zip(names, row)])) for row in op['rows']]
             mode = op['mode']
             ctx.probe('mode-' + mode)
@@ -229,7 +244,7 @@ class C20(Prop):
                     if len(set(ks)) != len(ks):
                         expect_error = True
             # ---- real
-            r = ctx.subrun(_dump, {'op': op, 'fields': fields, 'pk': pk})
+            r = ctx.subrun(_dump, {'op': op, 'fields': fields, 'pk': pk})        # pk: this dump's schema
             got_table = read_table(db, fields)
             desc = '%s; history=%s' % (label, json.dumps([{k: v for k, v in o.items() if k != 'rows'} for o in sc['ops'][:oi + 1]])[:600])
             if expect_error:
